@@ -1548,3 +1548,66 @@ def replay_routes(model, obligation, kind=None, opts='{}', content='Hello', mk='
     finally:
         shutil.rmtree(tmp, ignore_errors=True)
     return dict(confirmed=bool(probs), call='segno.make(%r, **%r) saved as %s with %r through every route' % (content, m, kind, o), detail='; '.join(probs[:3]) or 'all routes byte-identical')
+
+
+def replay_purity(model, obligation):
+    """native purity battery on the real code: repeated / reordered / equal-hashing / concurrent calls and
+    snapshots of the package's module level containers. confirmed=True with the differing call, else None
+    (a static finding without an observed behavioural difference is reported as no-failing-input-found)."""
+    import copy
+    import sys
+    import threading
+    from segno import utils, writers, helpers
+    probs = []
+
+    def snap():
+        out = {}
+        for mod in (segno, encoder, consts, utils, writers, helpers):
+            for name, val in mod.__dict__.items():
+                if isinstance(val, (list, dict, set, bytearray, tuple)) and not name.startswith('__'):
+                    out[mod.__name__ + '.' + name] = copy.deepcopy(val)
+        return out
+
+    def make(c, kw):
+        try:
+            q = segno.make(c, **kw)
+            return (q.designator, q.mask, tuple(bytes(r) for r in q.matrix))
+        except ValueError as ex:
+            return ('ValueError', str(ex))
+    calls = [('1', {}), (1, {}), (True, {}), ('True', {}), ('HELLO', {}), ('HELLO', dict(error='h')), ('hello', dict(micro=False)),
+             ('Hello World', dict(version=5)), ('12345678901234567890', dict(version=2, mask=1)), ('ABC', dict(version='M3')), ('ABC', dict(version=3)),
+             ('点', dict(mode='kanji')), ('点', dict(encoding='utf-8')), ('x' * 100, dict(error='q', boost_error=False)), ('x' * 100, dict(version=10)),
+             ('0' * 300, {}), ('A' * 40, dict(version=4)), ('A' * 40, dict(version=27)), ('ab', dict(version=27, mask=7)), ('ab', dict(version=1, mask=7))]
+    s0 = snap()
+    fresh = {}
+    for i, (c, kw) in enumerate(calls):
+        fresh[i] = make(c, kw)
+    pairs = ((1, 0, "make(1)", "make('1')"), (2, 3, "make(True)", "make('True')"))
+    for a, b, ca, cb in pairs:
+        if fresh[a] != fresh[b]:
+            probs.append('%s differs from %s after an equal-hashing argument was encoded before' % (ca, cb))
+    for order in (list(range(len(calls)))[::-1], [(7 * i + 3) % len(calls) for i in range(len(calls))]):
+        for i in order:
+            if make(*calls[i]) != fresh[i]:
+                probs.append('make(%r, **%r) differs when called in another history' % calls[i])
+    res = {}
+
+    def worker(t):
+        res[t] = [(j, make(*calls[j])) for j in [(i + t) % len(calls) for i in range(len(calls))]]
+    old = sys.getswitchinterval()
+    sys.setswitchinterval(1e-5)
+    try:
+        th = [threading.Thread(target=worker, args=(t,)) for t in range(16)]
+        [t.start() for t in th]
+        [t.join() for t in th]
+    finally:
+        sys.setswitchinterval(old)
+    for t, out in res.items():
+        for j, got in out:
+            if got != fresh[j]:
+                probs.append('make(%r, **%r) differs under 16 concurrent threads' % calls[j])
+    if snap() != s0:
+        s1 = snap()
+        probs.append('module level containers changed: %s' % sorted(k for k in s0 if s0[k] != s1.get(k))[:4])
+    return dict(confirmed=True if probs else None, call='purity battery of %d calls (fresh, reordered, equal-hashing, 16 threads)' % len(calls),
+                detail='; '.join(sorted(set(probs))[:3]) or 'no behavioural difference observed by the native battery')
